@@ -754,6 +754,23 @@ fn real_emissions(seed: u64, i: u64, base: &str) -> ReplyStats {
         }
         return st;
     }
+    // a large, highly compressible state: more than a megabyte of key-values that still fits one datagram once compressed
+    // (what a datagram may inflate to is bounded by the block format only, not by any fixed total)
+    if i % 40 == 9 {
+        let mut s = mk_node(ChitchatId::new("bloated".to_string(), 0, addr(7000)), &NodeOpts::default());
+        let nkeys = rng.random_range(1_200..3_000usize);
+        let vlen = rng.random_range(700..1_200usize);
+        for k in 0..nkeys {
+            let v: String = format!("{{\"service\":\"indexer\",\"shard\":{k},\"state\":\"ready\",\"padding\":\"{}\"}}", "x".repeat(vlen));
+            s.cc.self_node_state().set(format!("node/{k:05}"), v);
+        }
+        st.sample = Some(json!({"case": i, "bloated_state_keys": nkeys, "value_len": vlen}));
+        let d = vec![WDigestEntry { id: mk_wid("peer", 0, addr(7999)), heartbeat: 1, last_gc: 0, max_version: 0 }];
+        let before = st.c.get("messages_checked");
+        exercise_replies(&mut s, &d, &mut st, &format!("case {i} bloated compressible state ({nkeys} keys of {vlen} bytes)"));
+        st.c.add("bloated_state_messages", st.c.get("messages_checked") - before);
+        return st;
+    }
     let own_len = [0usize, 1, 5, 255, 256, 16_384, 60_000][rng.random_range(0..7)];
     let own = ChitchatId::new(rand_string(&mut rng, own_len, base), rng.random_range(0..3), if rng.random_bool(0.5) { "[::1]:7000".parse().unwrap() } else { addr(7000) });
     let cluster = { let l = [0usize, 1, 7, 255, 256][rng.random_range(0..5)]; rand_string(&mut rng, l, base) };
